@@ -1,6 +1,6 @@
 (* C23  Suppressions hide exactly the matching findings.
    Statements only; every proof is `exact <lemma>`. *)
-From CV Require Import Base.Bytes Base.Glob Base.GlobProofs Base.GlobTermination Supp.Defs Supp.Proofs Supp.ListProofs Supp.ParseDefs Supp.ParseProofs Supp.PairDefs Supp.PairProofs Supp.DispatchDefs Supp.DispatchProofs.
+From CV Require Import Base.Bytes Base.Glob Base.GlobProofs Base.GlobTermination Supp.Defs Supp.Proofs Supp.ListProofs Supp.ParseDefs Supp.ParseProofs Supp.PairDefs Supp.PairProofs Supp.DispatchDefs Supp.DispatchProofs Supp.InlineDefs Supp.InlineProofs.
 Local Open Scope N_scope.
 
 (* the declarative glob language: '*' any sequence, '?' one character *)
@@ -148,9 +148,43 @@ Theorem C23_pair_same_id_refuted :
 Proof. exact pair_ids_not_compared. Qed.
 Print Assumptions C23_pair_same_id_refuted.
 
+(* where an inline suppression applies (addInlineSuppressions over the token sequence of a file):
+   a comment that starts its line is attached to the line of the next code token ... *)
+Theorem C23_inline_comment_before_code pre c k post i sy :
+  Forall code pre -> code k -> Forall code post -> t_comment c = true ->
+  sameline (hd_opt (rev pre)) (Some c) = false ->
+  dispatch (t_text c) = DOk TUnique [(i, sy)] false -> valid_inline_id i = true ->
+  inline_suppressions (pre ++ c :: k :: post) = ([mkIS i sy TUnique (t_line k) NO_LINE NO_LINE false], 0).
+Proof. exact (comment_before_code pre c k post i sy). Qed.
+Print Assumptions C23_inline_comment_before_code.
+
+(* ... a comment after code on its line to that line; the "{" rule of the manual decides
+   whether it also covers the next line *)
+Theorem C23_inline_comment_after_code pre p c post i sy :
+  Forall code pre -> code p -> Forall code post -> t_comment c = true ->
+  t_line p = t_line c ->
+  dispatch (t_text c) = DOk TUnique [(i, sy)] false -> valid_inline_id i = true ->
+  inline_suppressions (pre ++ p :: c :: post)
+  = ([mkIS i sy TUnique (t_line c) NO_LINE NO_LINE (brace_rule (hd_opt (rev pre)) p c (hd_opt post))], 0).
+Proof. exact (comment_after_code pre p c post i sy). Qed.
+Print Assumptions C23_inline_comment_after_code.
+
+(* cppcheck-suppress-file is accepted only before any code *)
+Theorem C23_inline_file_comment pre c k post i sy :
+  Forall code pre -> code k -> Forall code post -> t_comment c = true ->
+  sameline (hd_opt (rev pre)) (Some c) = false ->
+  dispatch (t_text c) = DOk TFile [(i, sy)] false -> valid_inline_id i = true ->
+  inline_suppressions (pre ++ c :: k :: post)
+  = if is_nil pre then ([mkIS i sy TFile (t_line c) NO_LINE NO_LINE false], 0) else ([], 1).
+Proof. exact (file_comment pre c k post i sy). Qed.
+Print Assumptions C23_inline_file_comment.
+
 (* premises are inhabited *)
 Example C23_ex_printable : printable (fun x => x) (mkPL [97] [98;46;99] 12 [115] false).   (* a:b.c:12 symbol s *)
 Proof. unfold printable. cbn. repeat split; try reflexivity; try discriminate. Qed.
+Example C23_ex_inline : exists l, inline_suppressions
+  [mkTok 1 false [123]; mkTok 2 true [47;47;32;99;112;112;99;104;101;99;107;45;115;117;112;112;114;101;115;115;32;97]; mkTok 3 false [120]] = (l, 0) /\ l <> [].
+Proof. eexists. split; [vm_compute; reflexivity|discriminate]. Qed.
 Example C23_ex_kw_types : map kw_type KW = [TUnique; TBlockBegin; TBlockEnd; TFile; TMacro].
 Proof. reflexivity. Qed.
 Example C23_ex_pair : exists b n, pair_blocks [mkBE false [97] [] 1; mkBE true [97] [] 2] = (b, n).
